@@ -1205,7 +1205,7 @@ PROPS = {
              " The same bursts with 30 KB datagrams towards an HTTP/2 client (the stream's send window cannot take three at once)"
              " The real listener is also asked for /metrics?format=prometheus and /health-check?probe=1: a query string does not change the resource (200 both)",
         explanation="theorems cells_equal_objects, gauges_nonneg, all_clients_gone_sessions_udp_zero, all_clients_gone_everything_zero, "
-                    "refused_connect_balanced, hanging_connect_released_by_timeout, counters_monotone, up_adds_exactly, "
+                    "refused_connect_balanced, hanging_connect_released_by_timeout, counters_monotone, counters_never_decrease, up_adds_exactly, "
                     "down_adds_exactly, no_relay_no_bytes, half_closed_tunnel_released_when_both_ended, icmp_counts_only_relayed, udp_bytes_follow_multiplexer, documented_series, documented_paths about "
                     "TT/Model/Metrics.lean (which embeds TT/Model/UdpFlows.lean) and the table regenerated from METRICS.md",
         trusted=["which exported series the client->peer bytes feed is calibrated at the start of every run (3 bytes up, 5 down) and "
